@@ -7,6 +7,8 @@ import props.C02 as C02
 
 PID = 'C17'
 PROPERTY_FILE = 'Properties/C17.v'
+# generated model parts (translate/) this property's model / proofs really depend on
+GEN_DEPS = ['QuantityImpl']
 MODEL_TARGETS = R.MODEL_TARGETS
 PROOF_TARGETS = ['Proofs/C15Proofs.vo']
 COQ_HEADER = R.COQ_HEADER
